@@ -116,6 +116,10 @@ pub struct Case {
     /// also when it sets the value the consist itself already has
     #[serde(default)]
     pub nested_drift: bool,
+    /// speed-limited runs: friction-brake ramp-up time [s] set on the built simulation (the builder gives 0 s; the
+    /// shipped default brake has 60 s) - the brake force then has a memory from step to step
+    #[serde(default)]
+    pub fric_ramp_up: Option<f64>,
 }
 
 // ------------------------------------------------------------------------------------------------
@@ -289,6 +293,10 @@ pub fn gen_train_types(rng: &mut Rng, max_cars: u32, max_types: usize) -> TrainS
 }
 
 pub fn gen_net_for_trains(rng: &mut Rng, focus: &str) -> (Vec<Link>, usize) {
+    gen_net_for_trains_opt(rng, focus, false)
+}
+/// `downhill`: a long corridor that only descends (at the domain's grade bound) in the forward direction
+pub fn gen_net_for_trains_opt(rng: &mut Rng, focus: &str, downhill: bool) -> (Vec<Link>, usize) {
     let mut o = NetOpts::small(rng);
     o.n_sidings = rng.usize(0, 3);
     o.grade_bound = *rng.pick(&[0.0, 0.002, 0.004, 0.006, 0.008]);
@@ -316,23 +324,50 @@ pub fn gen_net_for_trains(rng: &mut Rng, focus: &str) -> (Vec<Link>, usize) {
     };
     o.params = false;
     o.by_type = rng.chance(0.2);
+    if downhill {
+        o.descending = true;
+        o.grade_bound = 0.008;
+        o.main_len = (3000.0, 15000.0);
+        o.siding_len = (1500.0, 4000.0);
+        o.n_sidings = rng.usize(1, 3);
+        o.max_restr = rng.usize(0, 1);
+    }
     (gen_network(rng, &o), o.n_sidings)
 }
 
 pub fn generate(rng: &mut Rng, focus: &str, thorough: bool) -> Case {
-    let (links, ns) = gen_net_for_trains(rng, focus);
+    // heavy train behind few units on a long descent, with a friction brake that ramps up slowly: the friction
+    // brake (not the dynamic brake) holds the speed, and what it can do depends on what it did a step ago
+    let downhill = focus != "C14" && focus != "C18" && rng.chance(if focus == "C03" { 0.1 } else { 0.05 });
+    let (links, ns) = gen_net_for_trains_opt(rng, focus, downhill);
     let choice = rng.next();
-    let full = if rng.chance(0.75) { fwd_route(ns, choice) } else { rev_route(ns, choice) };
+    let full = if downhill || rng.chance(0.75) { fwd_route(ns, choice) } else { rev_route(ns, choice) };
     let route: Vec<u32> = full.iter().map(|x| *x as u32).collect();
     let path_len: f64 = route.iter().map(|l| links[*l as usize].length.value).sum();
     // keep trains shorter than the route so that they fit on it at the start
     let max_cars = ((path_len * 0.6 / 18.0) as u32).clamp(6, if thorough { 150 } else { 90 });
     // for C18 more car types: sums over the per-type map must not depend on its iteration order
     let mut train = if focus == "C18" { gen_train_types(rng, max_cars, 7) } else { gen_train(rng, max_cars) };
+    if downhill {
+        // one unit (dynamic braking well below what the descent asks for) more often than two
+        let keep = if rng.chance(0.65) { 1 } else { 2 };
+        train.consist.truncate(keep);
+        let n_now: u32 = train.cars.iter().map(|c| c.n).sum();
+        if n_now > 0 && n_now < max_cars {
+            let f = max_cars as f64 / n_now as f64;
+            for c in train.cars.iter_mut() {
+                c.n = (c.n as f64 * f) as u32;
+            }
+        }
+        for c in train.cars.iter_mut() {
+            c.mass_freight = c.mass_freight.max(60_000.0);
+        }
+        train.mass_override = None;
+    }
     let set_speed_kind = match focus {
         "C14" => true,
         "C03" => false,
-        _ => rng.chance(0.4),
+        _ => !downhill && rng.chance(0.4),
     };
     // a speed-limited run needs room for the train plus its braking curve from the end of authority
     let room = if set_speed_kind { 50.0 } else { 2500.0 };
@@ -537,7 +572,11 @@ pub fn generate(rng: &mut Rng, focus: &str, thorough: bool) -> Case {
         init_offset: None,
         init_speed_unset: false,
         nested_drift: false,
+        fric_ramp_up: None,
     };
+    if !matches!(c.kind, Kind::SetSpeed { .. }) && (downhill || rng.chance(0.12)) {
+        c.fric_ramp_up = Some(if downhill { *rng.pick(&[20.0, 60.0, 60.0]) } else { *rng.pick(&[5.0, 20.0, 60.0]) });
+    }
     if !c.interval_changes.is_empty() && rng.chance(0.4) {
         c.nested_drift = true;
         // ... including a change to the value that is already in force (twice the same, or the initial one)
@@ -576,6 +615,11 @@ pub struct Traj {
     /// per recorded step: sums over the locomotives of (energy_out, fuel energy, battery chemical energy); empty
     /// when the trajectory was read back from histories
     pub loco_sums: Vec<(f64, f64, f64)>,
+    /// friction-brake force after each recorded step (speed-limited runs; empty otherwise)
+    #[allow(dead_code)]
+    pub fric: Vec<f64>,
+    /// friction-brake ramp-up time of the run [s] (0 = builder default)
+    pub fric_ramp_up: f64,
     /// path length (end of authority) known when step k was executed
     pub auth_end: Vec<f64>,
     /// route prefix delivered when step k was executed
@@ -804,7 +848,7 @@ fn check_backward_sweep(ctx: &mut Ctx, state: &TrainState, train_res: &TrainRes,
     }
     ctx.hit("probe.res.backward_sweep");
     let n0 = ctx.viol.len();
-    let synth = Traj { states, con: vec![], loco_sums: vec![], auth_end: vec![], delivered: vec![] };
+    let synth = Traj { states, con: vec![], loco_sums: vec![], fric: vec![], fric_ramp_up: 0.0, auth_end: vec![], delivered: vec![] };
     check_resistance(ctx, &synth, links, route_delivered, r);
     for v in ctx.viol.iter_mut().skip(n0) {
         if v.property == "C07" {
@@ -994,6 +1038,47 @@ impl Align {
     }
 }
 
+thread_local! {
+    /// (friction-brake ramp-up time, friction force dropped to zero while the consist kept braking) after the
+    /// latest executed step of the run on this thread - read when a panic ends the run
+    static BRAKE_CTX: std::cell::Cell<(f64, bool)> = const { std::cell::Cell::new((0.0, false)) };
+}
+
+/// Did the friction brake go from applied to zero, within the last ramp-up time before step k, in a step in which
+/// the controller still asked for braking (total applied force < 0, reconstructed from the recorded motion:
+/// m x dv/dt + resistance)? The controller only lets the brake go in a step that asks for no braking at all, so on
+/// the unchanged code this is never true; a brake that "forgets" what it was doing is - and then has to ramp up
+/// from nothing while the train is still on the descent.
+fn fric_dropped_while_braking(tr: &Traj, k: usize) -> bool {
+    if tr.fric.len() <= k || k == 0 {
+        return false;
+    }
+    let f_applied = |j: usize| -> f64 {
+        let (a, b) = (&tr.states[j - 1], &tr.states[j]);
+        let m = b.mass_static.value + b.mass_rot.value;
+        let res = b.res_rolling.value + b.res_bearing.value + b.res_davis_b.value + b.res_aero.value + b.res_grade.value + b.res_curve.value;
+        m * (b.speed.value - a.speed.value) / b.dt.value.max(1e-9) + res
+    };
+    let dt = tr.states[k].dt.value.max(1e-9);
+    let window = (tr.fric_ramp_up / dt) as usize + 5;
+    let lo = k.saturating_sub(window).max(1);
+    for j in (lo..=k).rev() {
+        if tr.fric[j] == 0.0 && tr.fric[j - 1] > 0.0 && f_applied(j) < -1e-6 * (tr.states[j].mass_static.value * 1e-3).max(1.0) {
+            return true;
+        }
+    }
+    false
+}
+
+/// context for a panic that ends a speed-limited run (signature of finding C03-...-ramping-friction-brake)
+pub fn panic_sig() -> Sig {
+    let (ramp, dropped) = BRAKE_CTX.with(|c| c.get());
+    let mut sg = Sig::new();
+    sg.insert("fric_ramp_up_s".into(), ramp.into());
+    sg.insert("fric_dropped_while_braking".into(), dropped.into());
+    sg
+}
+
 fn check_limit_run(ctx: &mut Ctx, tr: &Traj, links: &[Link], route: &[usize], case_train: &TrainSpec, r: &TrainRef) {
     let t = crate::net::TrainRefParams { length: r.length, speed_max: r.speed_max, towed_mass_static: r.towed, mass_per_brake: 0.0, axle_count: case_train.cars.iter().map(|c| c.axle_count as u32 * c.n).sum(), train_type: case_train.train_type };
     let mut cache: Option<(usize, Vec<(f64, f64, f64)>)> = None;
@@ -1005,7 +1090,12 @@ fn check_limit_run(ctx: &mut Ctx, tr: &Traj, links: &[Link], route: &[usize], ca
             ctx.violate("C03", "limit_run", "speed never negative", format!("step {k}: speed {v}"));
         }
         if v > b.speed_limit.value * (1.0 + 1e-9) + 1e-9 {
-            ctx.violate("C03", "limit_run", "speed <= limit in force", format!("step {k}: speed {v} > limit in force {} at offset {}", b.speed_limit.value, b.offset.value));
+            let mut sg = sig1("fric_ramp_up_s", tr.fric_ramp_up);
+            sg.insert("fric_dropped_while_braking".into(), fric_dropped_while_braking(tr, k - 1).into());
+            sg.insert("overspeed_rel".into(), ((v - b.speed_limit.value) / b.speed_limit.value.max(1e-9)).into());
+            // the friction brake came on from fully released in this step and is at what its ramp allows
+            sg.insert("fric_ramp_limited_from_released".into(), (tr.fric.len() > k && tr.fric[k - 1] == 0.0 && tr.fric[k] > 0.0).into());
+            ctx.violate_sig("C03", "limit_run", "speed <= limit in force", format!("step {k}: speed {v} > limit in force {} at offset {} (friction brake {} -> {} N, ramp-up time {} s)", b.speed_limit.value, b.offset.value, tr.fric.get(k - 1).copied().unwrap_or(f64::NAN), tr.fric.get(k).copied().unwrap_or(f64::NAN), tr.fric_ramp_up), sg);
         }
         if b.speed_target.value > b.speed_limit.value * (1.0 + 1e-9) + 1e-9 {
             ctx.violate("C03", "limit_run", "target speed <= limit in force", format!("step {k}: controller aims for {} m/s, limit in force {} m/s at offset {}", b.speed_target.value, b.speed_limit.value, b.offset.value));
@@ -1098,7 +1188,11 @@ pub fn make_limit_sim(case: &Case) -> anyhow::Result<SpeedLimitTrainSim> {
     lm.insert("B".into(), vec![loc("B", *case.route.last().unwrap())]);
     let its = InitTrainState::new(Some(case.init_time * uc::S), case.init_offset.map(|o| o * uc::M), None);
     let tsb = TrainSimBuilder::new("t0".into(), tc, con, Some("A".into()), Some("B".into()), Some(its));
-    tsb.make_speed_limit_train_sim(&lm, case.save_interval, case.sim_days, None)
+    let mut sim = tsb.make_speed_limit_train_sim(&lm, case.save_interval, case.sim_days, None)?;
+    if let Some(t) = case.fric_ramp_up {
+        sim.fric_brake.ramp_up_time = t * uc::S;
+    }
+    Ok(sim)
 }
 
 pub fn execute(case: &Case, ctx: &mut Ctx) {
@@ -1157,7 +1251,7 @@ pub fn execute(case: &Case, ctx: &mut Ctx) {
                 ctx.violate("C20", "mass_algebra", "train static mass = cars (or override) + consist", format!("mass_static {} vs {} (towed {} + consist {consist_mass})", sim.state.mass_static.value, r.mass_static, r.towed));
             }
             let con_init = sim.loco_con.state;
-            let mut tr = Traj { states: vec![sim.state], con: vec![sim.loco_con.state], loco_sums: vec![loco_sums(&sim.loco_con)], auth_end: vec![0.0], delivered: vec![route.len()] };
+            let mut tr = Traj { states: vec![sim.state], con: vec![sim.loco_con.state], loco_sums: vec![loco_sums(&sim.loco_con)], fric: vec![], fric_ramp_up: 0.0, auth_end: vec![0.0], delivered: vec![route.len()] };
             let path_len: f64 = route.iter().map(|l| links[*l].length.value).sum();
             ctx.layer = "train-stepping";
             let mut err = None;
@@ -1308,7 +1402,7 @@ pub fn execute(case: &Case, ctx: &mut Ctx) {
             ctx.add("stat.steps", rn.k as u64);
             rn.align(ctx, "end of run");
             // the shipped loops over the same scenario must reproduce the simulator-driven run (bit-exact final state)
-            if rn.terminated && case.crashes.is_empty() && case.interval_changes.is_empty() {
+            if rn.terminated && !rn.handed_over && case.crashes.is_empty() && case.interval_changes.is_empty() {
                 if let Ok(mut s2) = make_limit_sim(case) {
                     s2.state.dt = dt * uc::S;
                     ctx.layer = "train-stepping";
@@ -1420,13 +1514,16 @@ struct Runner {
     stuck: bool,
     /// inside the final walk (after the last authority has been delivered)
     final_walk: bool,
+    /// the final rest state was handed to the shipped loop (no step-for-step comparison with a fresh shipped run)
+    handed_over: bool,
 }
 
 impl Runner {
     fn new(mut sim: SpeedLimitTrainSim, case: &Case, dt: f64) -> Self {
         sim.state.dt = dt * uc::S;
-        let tr = Traj { states: vec![sim.state], con: vec![sim.loco_con.state], loco_sums: vec![loco_sums(&sim.loco_con)], auth_end: vec![0.0], delivered: vec![0] };
-        Runner { sim, tr, al: Align { i: 1, len: 0, interval: case.save_interval }, dt, k: 0, done: 0, ci: 0, ii: 0, arrived: false, terminated: false, budget: 60_000, rest_outside: 0, stuck: false, final_walk: false }
+        let tr = Traj { states: vec![sim.state], con: vec![sim.loco_con.state], loco_sums: vec![loco_sums(&sim.loco_con)], fric: vec![sim.fric_brake.state.force.value], fric_ramp_up: sim.fric_brake.ramp_up_time.value, auth_end: vec![0.0], delivered: vec![0] };
+        BRAKE_CTX.with(|c| c.set((tr.fric_ramp_up, false)));
+        Runner { sim, tr, al: Align { i: 1, len: 0, interval: case.save_interval }, dt, k: 0, done: 0, ci: 0, ii: 0, arrived: false, terminated: false, budget: 60_000, rest_outside: 0, stuck: false, final_walk: false, handed_over: false }
     }
     fn align(&self, ctx: &mut Ctx, after: &str) {
         let s = &self.sim;
@@ -1490,6 +1587,8 @@ impl Runner {
                 self.tr.states.push(self.sim.state);
                 self.tr.con.push(self.sim.loco_con.state);
                 self.tr.loco_sums.push(loco_sums(&self.sim.loco_con));
+                self.tr.fric.push(self.sim.fric_brake.state.force.value);
+                BRAKE_CTX.with(|c| c.set((self.tr.fric_ramp_up, fric_dropped_while_braking(&self.tr, self.tr.states.len() - 1))));
                 self.tr.auth_end.push(end);
                 self.tr.delivered.push(self.done);
                 ctx.sim_s += self.dt;
@@ -1505,7 +1604,7 @@ impl Runner {
                 // must start moving again; the shipped walk() would loop forever here
                 if self.sim.state.speed.value == 0.0 && self.go_on() {
                     self.rest_outside += 1;
-                    if self.rest_outside > 900 && self.ci >= case.crashes.len() && self.final_walk {
+                    if self.rest_outside > 1000 && self.ci >= case.crashes.len() && self.final_walk {
                         let st = &self.sim.state;
                         let end = self.sim.offset_end().value;
                         let mut sg = sig1("at_rest", true);
@@ -1535,13 +1634,14 @@ impl Runner {
         let mut n = 0usize;
         self.final_walk = true;
         while self.go_on() {
-            // At rest, controller target zero, outside the stopping window, nothing left to deliver: this state is
-            // final (the target depends on position and speed only). What the shipped loop makes of it is the
-            // verdict: it must end the run with a descriptive error (it used to spin forever here - a regression
-            // shows as a hang, which the watchdog turns into a violation).
-            // (n >= 1: the target must have been computed on the path as it is now, not before the last extension)
-            if n >= 1 && self.sim.state.speed.value == 0.0 && self.sim.state.speed_target.value == 0.0 && self.ci >= case.crashes.len() && self.ii >= case.interval_changes.len() {
+            // At rest for 900 steps with a zero controller target, outside the stopping window, nothing left to deliver
+            // and no fault pending: as final as a state can be (the target depends on position and speed only). What
+            // the shipped loop makes of it is the verdict: a descriptive error, or - if it does get the train moving -
+            // an arrival inside the window. It used to spin for ever here: a regression shows as a hang, which the
+            // watchdog turns into a violation.
+            if self.rest_outside > 900 && self.sim.state.speed_target.value == 0.0 && self.ci >= case.crashes.len() && self.ii >= case.interval_changes.len() {
                 ctx.hit("probe.walk.at_rest_short_of_window_with_zero_target");
+                self.handed_over = true;
                 let mut probe = self.sim.clone();
                 return match probe.walk() {
                     Err(e) => {
@@ -1549,8 +1649,13 @@ impl Runner {
                         Err(e)
                     }
                     Ok(()) => {
-                        let st = &probe.state;
-                        ctx.violate("C03", "limit_run", "Ok => at rest inside the stopping window", format!("shipped walk() returned Ok from rest at offset {} with the stopping window starting at {}", st.offset.value, probe.offset_end().value - FT1000));
+                        let (off, end, v) = (probe.state.offset.value, probe.offset_end().value, probe.state.speed.value);
+                        if !(v == 0.0 && off >= end - FT1000 - 1e-6 && off <= end + 1e-6) {
+                            ctx.violate("C03", "limit_run", "Ok => at rest inside the stopping window", format!("shipped walk() returned Ok at offset {off} with speed {v} (stopping window [{}, {end}])", end - FT1000));
+                        }
+                        self.sim = probe;
+                        self.arrived = true;
+                        self.terminated = true;
                         Ok(())
                     }
                 };
@@ -1811,6 +1916,11 @@ pub fn shrink(case: &Case) -> Vec<Case> {
     if case.nested_drift {
         let mut c = case.clone();
         c.nested_drift = false;
+        out.push(c);
+    }
+    if case.fric_ramp_up.is_some() {
+        let mut c = case.clone();
+        c.fric_ramp_up = None;
         out.push(c);
     }
     out
